@@ -99,6 +99,29 @@ def rule_G(run, prog, m):
         raise AnalysisError("no spectrum construction from stored data found in TwoDResponse")
 
 
+    # (iii) a read of one stored cell through the storage property hands out a copy: what the getter returns from the
+    # storage (piece[tag], storage[type], storage[total] - directly or through `ret`) carries .copy() (or numpy.array)
+    fac = m.functions["twodspectrum_dictionary"]
+    getter = [n for n in ast.walk(fac.node) if isinstance(n, ast.FunctionDef) and any(norm(d) == "property" for d in n.decorator_list)]
+    if len(getter) != 1:
+        raise AnalysisError("twodspectrum_dictionary: getter not found")
+    getter = getter[0]
+    srcs = []
+    for n in ast.walk(getter):
+        if isinstance(n, ast.Return) and n.value is not None and any(norm(n.value).startswith(p_) for p_ in ("piece[", "storage[")):
+            srcs.append(n.value)
+        if isinstance(n, ast.Assign) and norm(n.targets[0]) == "ret" and any(norm(n.value).startswith(p_) for p_ in ("piece[", "storage[")):
+            srcs.append(n.value)
+    if len(srcs) < 5:
+        raise AnalysisError("storage getter: only %d single-cell reads found (5 confirmed)" % len(srcs))
+    for v in srcs:
+        owned = (isinstance(v, ast.Call) and isinstance(v.func, ast.Attribute) and v.func.attr == "copy") or \
+            (isinstance(v, ast.Call) and call_name(v) in ("array", "copy"))
+        run.obligation(rid, "twod2.twodspectrum_dictionary.getter", owned, key="cell-read-is-a-copy:" + norm(v)[:40],
+                       message="the storage getter hands out %s, the stored array itself: an in-place operation on what was read "
+                               "changes the stored cell and every view that sums over it (the summed views are new arrays, so the "
+                               "behaviour also differs between views)" % norm(v), loc=fac.loc(v))
+
 def rule_F(run, prog, m):
     """Each view helper sums stored cells into an accumulator and returns it.  The accumulator must be an
     array of its own (FRESH: numpy.zeros, a copy, the result of a binary +) whenever something is added
@@ -665,6 +688,8 @@ def _classify_get(eff):
     if v is None:
         return "none"
     t = norm(v)
+    if t.endswith(".copy()"):
+        t = t[:-len(".copy()")]        # a copy of the cell addresses the same cell
     if t in ("piece[self.current_tag]", "ret", "storage[self.current_dtype]", "storage[_total]"):
         return "cell"
     if t == "data" or t.startswith("_"):
@@ -689,7 +714,7 @@ def rule_C(run, prog, m):
         eff = _first_effect(setter.body, cfg, "set")
         table_s[(res, cls, tag)] = "none" if eff is None else eff[0]
     # ret from try: storage[...] is the cell; verify the try bodies really read the addressed cell
-    cells_ok = all(norm(n.value) in ("storage[self.current_dtype]", "storage[_total]")
+    cells_ok = all(norm(n.value).replace(".copy()", "") in ("storage[self.current_dtype]", "storage[_total]")
                    for n in ast.walk(getter) if isinstance(n, ast.Assign) and norm(n.targets[0]) == "ret"
                    and not isinstance(n.value, ast.Constant))
     run.obligation(rid, "twod2.twodspectrum_dictionary.getter", cells_ok, key="cell-addressing",
